@@ -12,9 +12,11 @@ VARIABLES kind,      \* ghost: kind of the last call ("new","al","fb","cv")
           prevU,     \* ghost: previous input, -1000 after an edit / at start
           asc,       \* ghost: inputs non-decreasing since the scale was last edited
           band,      \* ghost: chromatic boundary (note index) all inputs since `base` stayed close to, or -1
-          changes    \* ghost: note changes since the first conversion inside the band
+          changes,   \* ghost: note changes since the first conversion inside the band
+          fr,        \* ghost (C19): fraction of the last conversion = input used - Volt(note), in units
+          kept       \* ghost (C19): the last conversion kept the previous note through the window
 
-mcVars == <<qVars, kind, prevU, asc, band, changes>>
+mcVars == <<qVars, kind, prevU, asc, band, changes, fr, kept>>
 
 Inputs == (-SU)..(VMax + 2 * SU)
 Scales == (SUBSET (0..(PC - 1))) \ {{}}
@@ -34,16 +36,20 @@ TConvert(u) ==
   /\ asc' = (prevU = -1000 \/ (asc /\ u >= prevU))
   /\ band' = NearBoundary(u)
   /\ changes' = IF band' # -1 /\ band' = band THEN (IF changes + (IF last' # last THEN 1 ELSE 0) > 2 THEN 2 ELSE changes + (IF last' # last THEN 1 ELSE 0)) ELSE 0
+  /\ kept' = Keeps(u)
+  /\ fr' = (IF Keeps(u) THEN u ELSE Clamp(u)) - Volt(last')
   /\ Lbl([op |-> "cv", u |-> u])
 TAllow(k)  == /\ Allow(<<k>>) /\ kind' = "al" /\ prevU' = -1000 /\ asc' = TRUE /\ band' = -1 /\ changes' = 0
+              /\ UNCHANGED <<fr, kept>>
               /\ Lbl([op |-> "al", ns |-> <<k>>])
 TForbid(s) == /\ Forbid(s) /\ kind' = "fb" /\ prevU' = -1000 /\ asc' = TRUE /\ band' = -1 /\ changes' = 0
+              /\ UNCHANGED <<fr, kept>>
               /\ Lbl([op |-> "fb", ns |-> s])
 
 ForbidSeqs == {<<k>> : k \in 0..PC} \cup {<<j, k>> : j \in 0..(PC - 1), k \in 0..(PC - 1)}
               \cup {[i \in 1..PC |-> (i + k) % PC] : k \in 0..(PC - 1)}
 
-MCInit == QInit /\ kind = "new" /\ prevU = -1000 /\ asc = TRUE /\ band = -1 /\ changes = 0
+MCInit == QInit /\ kind = "new" /\ prevU = -1000 /\ asc = TRUE /\ band = -1 /\ changes = 0 /\ fr = 0 /\ kept = FALSE
 MCNext == \/ \E u \in Inputs : TConvert(u)
           \/ \E k \in 0..PC : TAllow(k)
           \/ \E s \in ForbidSeqs : TForbid(s)
@@ -62,6 +68,13 @@ Prop_C09_free   == [][(kind' = "cv" /\ ~(LastValid /\ InWindow(last, prevU', 0))
 \* nearest-note midpoint, which the statement's window does not cover)
 Inv_C09_chatter == allowed = 0..(PC - 1) => changes <= 1
 Prop_C09_mono   == [][(kind' = "cv" /\ kind = "cv" /\ asc') => last' >= last]_mcVars
+
+\* ---- C19 (symbolic: stairstep = Volt(note), fraction = input used - stairstep) ----
+\* stairstep + fraction is the input, or the clamped input on the search path
+Inv_C19_sum == kind = "cv" => (Volt(last) + fr = prevU \/ Volt(last) + fr = Clamp(prevU))
+\* kept by the window: fraction within [-H, SU + H]; chromatic scale, in-range input, not kept: [0, SU)
+Inv_C19_window == (kind = "cv" /\ kept) => (-HystU < fr /\ fr < SU + HystU)
+Inv_C19_chromatic == (kind = "cv" /\ ~kept /\ allowed = 0..(PC - 1) /\ prevU >= 0 /\ prevU < VMax) => (0 <= fr /\ fr < SU)
 
 \* ---- C08: theorems about the memoryless rule, for every scale and every input of the instance ----
 Thm_C08_mono == \A A \in Scales : \A u \in 0..(VMax - 1) : Rule(A, u) <= Rule(A, u + 1)
